@@ -73,7 +73,8 @@ def run_case(args):
             core.run_limited(["strip", "-g", p], timeout=60)
         files[f] = h(open(p, "rb").read())
     # diagnostics may mention the scratch output dir (differs per run by construction): normalise it
-    norm = lambda b: b.replace(outdir.encode(), b"@OUT")
+    # ... and the assembler/linker quote the driver's mkstemp names when they reject something
+    norm = lambda b: re.sub(rb"/tmp/chibicc-[A-Za-z0-9]{6}", b"@TMP", b.replace(outdir.encode(), b"@OUT"))
     shutil.rmtree(outdir, ignore_errors=True)
     return (str(st), h(norm(out)), h(norm(err)), tuple(sorted(files.items()))), norm(err)[:300].decode("utf-8", "replace")
 
